@@ -253,10 +253,12 @@ PROPS["C18"] = dict(
     level="fault_enumeration", engine="E3 session", bins=True,
     technique="fault enumeration: pause/resume cycles injected at every message index of real protocol-3/4 transfers through the real prompt UI and the transfer API; success, identical-files, bounded-time and no-data-while-paused oracles",
     level_text="For each protocol 3/4 scenario (T = 3 s, 2 KB buffer so that the probing phase and the ack window are visited) a dry run numbers the messages; the transfer is re-run once per "
-               "(direction, message index, before|after) x pause profile (50 ms, 300 ms, 3 x 300 ms, 1.8 s; thorough adds 3 s, 4.5 s, 2 x 1.2 s) x path (Ctrl-C + 'q' in the real prompt, "
-               "pause/resume calls). Oracle: pauses shorter than T-1 s must end in success on both sides with identical files; longer ones in success-with-identical-files or an error on both sides "
-               "within the bound; from 150 ms after a pause began until resume the paused client starts no #DATA message other than the keep-alive.",
-    level_note="Only the client can be paused (the prompt is a client feature). Nothing is asserted about the cadence of keep-alives.",
+               "(direction, message index, before|after) x pause profile (50 ms, 300 ms, 3 x 300 ms, 1.8 s, and T-0.4 s on a link that delivers 0.6 s late from eight messages before the pause until 1.5 s after it; "
+               "thorough adds 3 s, 4.5 s, 2 x 1.2 s, T-0.4 s without latency, 2 x 1.2 s at 0.3 s latency, T-0.4 s at 0.4 s latency) x path (Ctrl-C + 'q' in the real prompt, "
+               "pause/resume calls). Oracle: a pause shorter than T-0.3 s that was spent entirely in a keep-alive phase (only '=' lines from the client during the pause, data or an ack right after) must end in "
+               "success on both sides with identical files at any latency; in the phases without keep-alives (tail of a file) success is demanded while pause + latency <= T-0.4 s; other cases end in "
+               "success-with-identical-files or an error on both sides within the bound; from 150 ms after a pause began until resume the paused client starts no #DATA message other than the keep-alive.",
+    level_note="Only the client can be paused (the prompt is a client feature). Nothing is asserted about the cadence of keep-alives. The final-ack / MD5 phase has no keep-alive in the protocol: there the peer sees pause + latency of silence.",
     rule="non-trivial = the pause point was reached and at least one pause/resume cycle was performed; distinct by SHA-1 of the case JSON",
     tests=[dict(name="TestVF_C18", rapid=False, env=dict(VERIF_CASE_LIMIT=300),
                 quick=dict(shards=32, timeout=1800, env=dict(VERIF_C18_STRIDE=24)),
